@@ -15,7 +15,13 @@ def run(rep, tier, seed, replay):
     r = satrun.run(seed, n)
     s = r["summary"]
     for b in r["bad"].get("C17", []):
-        rep.violation("c17:%s" % b.get("what"),
+        key = "c17:%s" % b.get("what")
+        # known finding shared with C01 (c01:sh:scriptsig-over-1650): sh() accepts a redeem script whose every
+        # scriptSig exceeds 1650 bytes, so the completed plan does not spend under standardness; recognised by
+        # the measured length of the P2SH scriptSig the plan completed to
+        if b.get("kind") == "sh" and len(b.get("ssig") or "") // 2 > 1650 and "does-not-spend" in (b.get("what") or ""):
+            key = "c17:sh:scriptsig-over-1650"
+        rep.violation(key,
                       "plan check '%s' failed for %s" % (b.get("what"), b.get("desc", "")[:200]),
                       dict(b, property="C17", engine="sat", seed=seed, n=n, failed_clause=b.get("what")), True)
     for d in r["diff"]:
